@@ -11,6 +11,7 @@ open Otel Otel.C04
 def mutsOf : List Lbl → List Op
   | [] => []
   | .mut op :: r => op :: mutsOf r
+  | .endLockPanic _ _ typ msg :: r => .recordError (some (typ, msg)) [] :: mutsOf r   -- the panic's exception event
   | _ :: r => mutsOf r
 
 /-- the number of addChild labels -/
@@ -21,12 +22,14 @@ def addsOf : List Lbl → Nat
 
 def isEndLock : Lbl → Bool
   | .endLock _ _ => true
+  | .endLockPanic _ _ _ _ => true
   | _ => false
 
-/-- the labels before the first `endLock` label (the first one is the one that ends the span) -/
+/-- the labels up to and including the first `endLock` / `endLockPanic` label (the first one is the one that ends the
+span; a plain `endLock` contributes no operation, an `endLockPanic` contributes its exception event) -/
 def beforeEnd : List Lbl → List Lbl
   | [] => []
-  | l :: r => if isEndLock l then [] else l :: beforeEnd r
+  | l :: r => if isEndLock l then [l] else l :: beforeEnd r
 
 variable {c : Cfg}
 
@@ -51,7 +54,8 @@ theorem step_cut_stable (s s' : St) (l : Lbl) (hr : Reachable c s) (hs : step c 
     all_goals simp_all)
 
 theorem step_cut_set (s s' : St) (l : Lbl) (hr : Reachable c s) (hs : step c s l = some s') (hk : s.cut = none) :
-    (isEndLock l = true ∧ s'.cut = some (s.hist.length, s.childLabels)) ∨ (isEndLock l = false ∧ s'.cut = none) := by
+    (isEndLock l = true ∧ s'.cut = some (s.hist.length + (mutsOf [l]).length, s.childLabels) ∧ addsOf [l] = 0) ∨
+    (isEndLock l = false ∧ s'.cut = none) := by
   have hi := inv_reachable c s hr
   have he : s.data.ended = false := by have := hi.cutE; rw [hk] at this; simpa using this.symm
   cases l <;> simp only [step] at hs
@@ -59,7 +63,7 @@ theorem step_cut_set (s s' : St) (l : Lbl) (hr : Reachable c s) (hs : step c s l
     repeat' (split at hs)
     all_goals (try (simp at hs))
     all_goals (try subst hs)
-    all_goals simp_all [isEndLock])
+    all_goals simp_all [isEndLock, mutsOf, addsOf])
 
 theorem mutsOf_cons (l : Lbl) (r : List Lbl) : mutsOf (l :: r) = mutsOf [l] ++ mutsOf r := by
   cases l <;> simp [mutsOf]
@@ -99,10 +103,10 @@ theorem run_cut (s s' : St) (ls : List Lbl) (hr : Reachable c s) (hs : run c s l
     split at hs
     · rename_i s1 hs1
       have hr1 := Reachable.step l hr hs1
-      rcases step_cut_set s s1 l hr hs1 hk with ⟨hl, hc⟩ | ⟨hl, hc⟩
+      rcases step_cut_set s s1 l hr hs1 hk with ⟨hl, hc, ha⟩ | ⟨hl, hc⟩
       · have := run_cut_stable s1 s' r hr1 hs _ hc
         rw [this] at hk'; cases hk'
-        simp [beforeEnd, hl, mutsOf, addsOf]
+        simp [beforeEnd, hl, ha]
       · have := ih s1 hr1 hs hc
         have hh := step_hist s s1 l hs1
         rw [this, hh.1, hh.2]
@@ -117,7 +121,7 @@ theorem beforeEnd_prefix (ls : List Lbl) : ∃ more, mutsOf ls = mutsOf (beforeE
   | nil => exact ⟨[], by simp [beforeEnd, mutsOf]⟩
   | cons l r ih =>
     by_cases hl : isEndLock l = true
-    · exact ⟨mutsOf (l :: r), by simp [beforeEnd, hl, mutsOf]⟩
+    · exact ⟨mutsOf r, by simp only [beforeEnd, hl, if_true]; exact mutsOf_cons l r⟩
     · obtain ⟨more, hm⟩ := ih
       refine ⟨more, ?_⟩
       have hl' : isEndLock l = false := by simpa using hl
